@@ -2,15 +2,28 @@ import MithrilModel.AggChain
 import MithrilModel.AggAttr
 import MithrilModel.AggSe
 /-!
-C15, progress: from every state of the aggregator model that satisfies the state invariant `SInv`
-(proved for every run with cut ticks in `AggChain`) and whose runtime is `idle` / `ready` — in
-particular the state right after `crash tp p; restart` — a *productive continuation* inserts a new
-certificate, for the entity the state machine opens or resumes; productive continuations can be
-iterated for ever, and the runtime is never `blocked` as long as the rounds' epochs never skip an
-epoch (the gap rule of `idleStep`).
+C15, progress (proof file; the model `Agg.lean` is untouched).
 
-The continuation is a computable function of the state and of the inputs the model takes: the time
-point of the ticks, the parties that sign and the lottery indices each of them wins.
+From every state of the aggregator model that satisfies the state invariant `SInv` (proved in `AggChain`
+for every run with ticks cut at a crash point) and whose runtime is `idle` / `ready` — in particular the
+state right after `crash tp p; restart`, which is `idle none` — a *productive continuation* inserts a new
+certificate, for the entity the state machine resumes or opens; productive continuations can be iterated
+for ever, and the runtime is never `blocked` as long as the rounds' epochs never skip an epoch (the gap
+rule of `idleStep` / `master`).
+
+* `cont E s r`: the continuation, a computable function of the state and of the inputs the model takes
+  (`Round`: the time point of the ticks, the parties that sign, the lottery indices each of them wins):
+  ticks until SIGNING, the parties' valid signatures for the open message, one tick.
+* `Productive E k s r`: its hypotheses, all decidable. `QuorumByIndices E k`: the environment's quorum
+  test accepts `k` distinct indices.
+* `productive_round`: one round appends exactly one certificate, for `target s r.tp`; never blocked; the
+  continuation is a well-formed run; the invariant holds again; the runtime ends `ready`.
+* `progress_forever`, `progress_forever_fresh` (`PlanOk` / `NextOk` / `FreshPlan`): iteration.
+* `run_flagged`: no history, with cuts anywhere, leaves an open message flagged certified without its
+  certificate stored (the state that would make the scan skip an uncertified entity for ever).
+* `no_quorum_run`: why the goal as first written (`C15.C15_progress_goal`) is false;
+  `stuck_for_ever`: why the continuation has to contain submissions (buffered signatures of a round whose
+  hand-over was cut are never used).
 -/
 namespace Agg
 
